@@ -239,7 +239,7 @@ def build_streams(rng, tier):
         Stream("commutants-and-commutator-graphs", S, h, oracle, tag=tag, nontrivial=lambda l, o: "E=-" not in o),
         Stream("graph-queries-after-edit-histories", H, IC.handle, oracle_hist, tag=lambda l, o: "hist" + (":err" if "!" in o else ""),
                nontrivial=lambda l, o: any(x.split(":")[0] in ("rep", "con", "rem", "del", "exp", "sort") for x in l.split(" ")[2].split(";"))),
-    ]
+    ] + _extra().extra_streams(rng, tier)
 
 RULE = ("random collections on 1..6 qubits (0..8 members; duplicates, mixed lengths, identity, products of members), every "
         "graph query; commutants / commutator graph / its components on n<=3 (quick; 4^n vertices enumerated, a few at n=4; "
@@ -258,3 +258,13 @@ def replay(path):
     out = impl_graph.handle(line); why = oracle(line, out)
     print("line:", line); print("implementation:", out[:500]); print("model:", run_model([line])[0][:500]); print("oracle:", why or "holds")
     return 1 if why else 0
+
+
+# ---- helpers of the collection next to the graphs (Properties/C14Extra.lean); imported last: the module uses this one's oracle helpers
+def _extra():
+    import props.c14_extra as X
+    return X
+
+import props.c14_extra as _X
+THEOREMS = THEOREMS + _X.EXTRA_THEOREMS
+IMPORTS = IMPORTS + _X.EXTRA_IMPORTS
